@@ -33,7 +33,8 @@ class OVF:
         for disk in self.xml.findall(self.DISK_XPATH, self.NS):
             disk_id = disk.get("{{{ovf}}}diskId".format(**self.NS))
             file_ref = disk.get("{{{ovf}}}fileRef".format(**self.NS))
-            self._disks[disk_id] = self.references[file_ref]
+            # A disk without a file reference is an empty disk, it has no backing file
+            self._disks[disk_id] = self.references[file_ref] if file_ref is not None else None
 
     def disks(self) -> Iterator[str]:
         for disk in self.xml.findall(self.DISK_DRIVE_XPATH, self.NS):
@@ -43,7 +44,8 @@ class OVF:
 
             if xpath.startswith("/disk/"):
                 disk_ref = xpath.split("/")[-1]
-                yield self._disks[disk_ref]
+                if self._disks[disk_ref] is not None:
+                    yield self._disks[disk_ref]
             elif xpath.startswith("/file/"):
                 file_ref = xpath.split("/")[-1]
                 yield self.references[file_ref]
